@@ -758,8 +758,64 @@ func (d *driver) filterThenBind(name string) {
 	if len(nodes) == 0 {
 		return
 	}
+	if d.sc.Feat["resync"] && d.rng.Intn(4) == 0 && !d.liveOf("resync", "") && d.liveCount() < d.sc.MaxOps {
+		// a whole resync pass between the scheduler's filter and bind calls
+		d.startResync()
+		if !d.runAlone(d.lastOp()) {
+			return
+		}
+	}
 	d.startBind(name, nodes[d.rng.Intn(len(nodes))])
 	d.runAlone(d.lastOp())
+}
+
+// rollout is a prelude: every deployment pod is scheduled and bound, then all of them are deleted and the release events
+// handled, so that the app holds several reserved IPs (possibly in different node subnets) when the trace proper starts.
+func (d *driver) rollout() {
+	var names []string
+	for _, s := range d.sc.Specs {
+		if s.Kind != "dp" {
+			continue
+		}
+		pv, err := d.w.CreatePod(s)
+		if err != nil {
+			continue
+		}
+		d.inc[s.Name]++
+		d.emit(M{"ev": "CreatePod", "pod": s.Name, "uid": pv.UID, "ranges": pv.Ranges})
+		for guard := 0; len(d.w.Pevq) > 0 && guard < 50; guard++ {
+			d.deliverPod()
+		}
+		d.filterThenBind(s.Name)
+		names = append(names, s.Name)
+	}
+	if d.sc.Feat["scale"] && d.rng.Intn(2) == 0 {
+		// scaled down by one just before the pods go away
+		for app, r := range d.sc.Dp {
+			if r > 0 {
+				d.w.SetDp(app, r-1, true)
+				d.emit(M{"ev": "ScaleDp", "app": app, "replicas": r - 1})
+			}
+		}
+	}
+	for _, n := range names {
+		if d.w.DeletePod(n) {
+			delete(d.filtered, n)
+			d.emit(M{"ev": "DeletePod", "pod": n})
+		}
+	}
+	// the release events are handled concurrently: all of them start, their segments interleave at random
+	for guard := 0; guard < 300 && !d.hung && d.w.Alive; guard++ {
+		if len(d.w.Pevq) > 0 {
+			d.deliverPod()
+		} else if len(d.w.Work) > 0 {
+			d.startUnbind()
+		} else if r := d.runnable(); len(r) > 0 {
+			d.step(r[d.rng.Intn(len(r))], 0, 0)
+		} else {
+			break
+		}
+	}
 }
 
 func (d *driver) startAction() bool {
@@ -1011,6 +1067,9 @@ func (d *driver) runTrace(id, length int) {
 	}
 	d.beginTrace(id, nil)
 	sc, w := d.sc, d.w
+	if sc.Feat["rollout"] {
+		d.rollout()
+	}
 	for i := 0; i < length && !d.hung; i++ {
 		if !w.Alive {
 			d.restart()
